@@ -200,7 +200,7 @@ pharness!(c12_on_incoming_close, |s| {
     std::mem::forget(r);
 });
 
-// @tier thorough
+// @tier probe
 // @timeout 2400
 // @mem 30
 // @unwind 1
@@ -240,7 +240,7 @@ pharness!(c12_send_open, |s| {
     std::mem::forget(r);
 });
 
-// @tier thorough
+// @tier probe
 // @timeout 2400
 // @mem 30
 // @unwind 1
@@ -286,7 +286,7 @@ pharness!(c12_send_close, |s| {
     std::mem::forget(r);
 });
 
-// @tier thorough
+// @tier probe
 // @timeout 2400
 // @mem 30
 // @unwind 6
@@ -349,7 +349,7 @@ pharness!(c17_allocate_session, |s| {
     std::mem::forget(r);
 });
 
-// @tier thorough
+// @tier probe
 // @timeout 2400
 // @mem 30
 // @unwind 1
